@@ -40,6 +40,8 @@ func main() {
 			}
 		}()
 		switch os.Args[1] {
+		case "ALL":
+			code = runAll()
 		case "dump-eff":
 			c := loadProgram(repoDir(), mambaMod, 9)
 			filter := ""
